@@ -278,6 +278,25 @@ def emit(repo, spec, H):
     L.append("(* dfconv.c: DFKNTsize switches on this expression *)")
     L.append("Definition dfkntsize_selector (number_type : Z) : Z := %s." % H.P(ms.group(1), ["number_type"], env).ternary_all())
 
+    # ---------------- buffered driver for compressed images selected from a file; empty-image reads ------------
+    menv = {}
+    menv.update(H.all_enums(txt))
+    menv.update(H.defines(repo, F))
+    rows = H.switch_table(txt, "GRIisspecial_type", menv, 0)
+    rep = [lab for labels, asg, ret in rows for lab in labels
+           if lab != "default" and "access_rec->special" in (asg.get("ret_value") or "")]
+    L.append("(* GRIisspecial_type: the special-element codes it reports (everything else yields 0) *)")
+    L.append("Definition isspecial_reported : list Z := [%s]." % "; ".join(H.zlit(v) for v in rep))
+    gb = H.func_body(txt, "GRIget_image_list")
+    uses = re.findall(r"GRIisspecial_type\s*\([^;{}]*?\)\s*==\s*([A-Za-z0-9_()x]+)\s*\)\s*\{?\s*new_image->use_buf_drvr\s*=\s*1", gb)
+    if len(uses) != 2 or len(set(uses)) != 1:
+        raise ValueError("gr_exprs: expected two 'GRIisspecial_type(..) == CODE -> use_buf_drvr = 1' sites, found %r" % (uses,))
+    L.append("(* GRIget_image_list (both branches): an image whose data element has this special code is buffered *)")
+    L.append("Definition select_buffers_code : Z := %s." % H.zlit(H.ceval(uses[0], menv)))
+    L.append("Definition SPECIAL_COMP : Z := %s." % H.zlit(H.ceval("SPECIAL_COMP", menv)))
+    L.append("(* GRreadimage: does the no-data branch keep the fill pixel with the image (ri_ptr->fill_value)? *)")
+    L.append("Definition rd_nodata_caches_fill : bool := %s." % ("true" if "ri_ptr->fill_value" in rb else "false"))
+
     # ---------------- old-style run-length coder (hdf/src/dfrle.c) ----------------
     rt = H.src(repo, "hdf/src/dfrle.c")
     eb = H.func_body(rt, "DFCIrle")
